@@ -255,7 +255,8 @@ type Event struct {
 	Note   string
 	// Bound: for closure arguments, the function values held at the time of the event by the variables the
 	// closure captures (names of closures' functions / symbols); only recorded when Interp.SnapClosures is set
-	Bound []string
+	Bound     []string
+	BoundVals []AV // the closure values themselves (same order as the closures among Bound)
 }
 
 func (e Event) Name() string {
@@ -1754,6 +1755,7 @@ func (in *Interp) finishUnknown(st *State, ctx *CallCtx, ev Event, rts []types.T
 		for _, a := range ev.Args {
 			if cl, ok := a.(Closure); ok {
 				ev.Bound = append(ev.Bound, boundFuncs(st, cl, 0)...)
+				ev.BoundVals = append(ev.BoundVals, boundClosures(st, cl, 0)...)
 			}
 		}
 	}
@@ -2044,6 +2046,26 @@ func boundFuncs(st *State, cl Closure, depth int) []string {
 			out = append(out, boundFuncs(st, x, depth+1)...)
 		case Sym:
 			out = append(out, x.Name)
+		}
+	}
+	return out
+}
+
+
+// boundClosures: the closure values reachable through the variables a closure captures.
+func boundClosures(st *State, cl Closure, depth int) []AV {
+	var out []AV
+	if depth > 3 {
+		return out
+	}
+	for _, b := range cl.Bind {
+		v := b
+		if o := st.Obj(b); o != nil && o.Kind == 'c' {
+			v = o.Val
+		}
+		if x, ok := v.(Closure); ok {
+			out = append(out, x)
+			out = append(out, boundClosures(st, x, depth+1)...)
 		}
 	}
 	return out
